@@ -177,6 +177,26 @@ pub struct EntryView {
     pub meta: Meta,
 }
 
+/// Entries handed out by one `read_all_with_deletion_marker` call, kept alive
+#[async_trait]
+pub trait HeldEntries: Send {
+    /// `Entry::load_data()` on every held entry, in list order
+    async fn load_data_all(&mut self) -> Vec<Result<Vec<u8>>>;
+}
+
+struct Held(Vec<pearl::Entry>);
+
+#[async_trait]
+impl HeldEntries for Held {
+    async fn load_data_all(&mut self) -> Vec<Result<Vec<u8>>> {
+        let mut out = Vec::with_capacity(self.0.len());
+        for e in self.0.iter_mut() {
+            out.push(e.load_data().await.map(|d| d.to_vec()));
+        }
+        out
+    }
+}
+
 /// How much of an entry to load and through which API
 #[derive(Clone, Copy, Debug, PartialEq, Eq)]
 pub enum LoadMode {
@@ -205,6 +225,8 @@ pub trait Sut: Send + Sync {
     async fn read_with(&self, key: &[u8], meta: &Meta) -> Result<RR<Vec<u8>>>;
     async fn contains(&self, key: &[u8]) -> Result<RR<u64>>;
     async fn read_all(&self, key: &[u8], dm: bool, mode: LoadMode) -> Result<Vec<Result<EntryView>>>;
+    /// `read_all_with_deletion_marker` whose `Entry` objects are kept alive by the caller and can be loaded again later
+    async fn hold_entries(&self, key: &[u8]) -> Result<Box<dyn HeldEntries>>;
     async fn delete(&self, key: &[u8], ts: u64, meta: Option<Meta>, only_if: bool) -> Result<u64>;
     async fn try_close_active(&self) -> Result<()>;
     async fn try_create_active(&self) -> Result<()>;
@@ -297,6 +319,9 @@ impl<const N: usize> Sut for S<N> {
             out.push(v);
         }
         Ok(out)
+    }
+    async fn hold_entries(&self, key: &[u8]) -> Result<Box<dyn HeldEntries>> {
+        Ok(Box::new(Held(self.0.read_all_with_deletion_marker(k::<N>(key)).await?)))
     }
     async fn delete(&self, key: &[u8], ts: u64, meta: Option<Meta>, only_if: bool) -> Result<u64> {
         match meta {
@@ -424,7 +449,7 @@ pub struct InitCancel {
     pub permits_after_drop: usize,
 }
 
-async fn open_cancel_n<const N: usize>(cfg: &Cfg, dir: &Path, lazy: bool, k: usize, sem: std::sync::Arc<tokio::sync::Semaphore>, group: &std::sync::atomic::AtomicI64) -> Result<(Box<dyn Sut>, InitCancel)> {
+async fn open_cancel_n<const N: usize>(cfg: &Cfg, dir: &Path, lazy: bool, k: usize, budget: Option<u8>, sem: std::sync::Arc<tokio::sync::Semaphore>, group: &std::sync::atomic::AtomicI64) -> Result<(Box<dyn Sut>, InitCancel)> {
     use std::sync::atomic::Ordering::SeqCst;
     let initial = sem.available_permits();
     let mut s: Storage<ArrayKey<N>> = cfg.builder(dir).set_dump_sem(sem.clone()).build()?;
@@ -438,8 +463,17 @@ async fn open_cancel_n<const N: usize>(cfg: &Cfg, dir: &Path, lazy: bool, k: usi
                 s.init().await
             }
         });
-        for _ in 0..=k {
+        for i in 0..=k {
             info.polls += 1;
+            if let (true, Some(j)) = (i == k, budget) {
+                // the last poll runs with j units of the cooperative budget (see props::c14::poll_kb)
+                tokio::task::yield_now().await;
+                let mut left = 128usize;
+                while left > j as usize && tokio::task::coop::has_budget_remaining() {
+                    tokio::task::coop::consume_budget().await;
+                    left -= 1;
+                }
+            }
             match futures::poll!(fut.as_mut()) {
                 std::task::Poll::Ready(r) => {
                     done = Some(r);
@@ -481,11 +515,11 @@ async fn open_cancel_n<const N: usize>(cfg: &Cfg, dir: &Path, lazy: bool, k: usi
 
 /// Builds a storage on `dir` with its own one-permit dump semaphore, polls `init` at most `k + 1` times, drops it if it is
 /// still pending, and initialises the same object again (unless the permit is gone)
-pub async fn open_cancel_init(cfg: &Cfg, dir: &Path, lazy: bool, k: usize, group: &std::sync::atomic::AtomicI64) -> Result<(Box<dyn Sut>, InitCancel)> {
+pub async fn open_cancel_init(cfg: &Cfg, dir: &Path, lazy: bool, k: usize, budget: Option<u8>, group: &std::sync::atomic::AtomicI64) -> Result<(Box<dyn Sut>, InitCancel)> {
     let sem = std::sync::Arc::new(tokio::sync::Semaphore::new(1));
     match cfg.keylen {
-        8 => open_cancel_n::<8>(cfg, dir, lazy, k, sem, group).await,
-        33 => open_cancel_n::<33>(cfg, dir, lazy, k, sem, group).await,
+        8 => open_cancel_n::<8>(cfg, dir, lazy, k, budget, sem, group).await,
+        33 => open_cancel_n::<33>(cfg, dir, lazy, k, budget, sem, group).await,
         n => Err(anyhow!("unsupported key length {}", n)),
     }
 }
@@ -506,6 +540,7 @@ pub async fn open_sem(cfg: &Cfg, dir: &Path, lazy: bool, sem: Option<std::sync::
         4 => open_n::<4>(cfg, dir, lazy, sem).await,
         8 => open_n::<8>(cfg, dir, lazy, sem).await,
         32 => open_n::<32>(cfg, dir, lazy, sem).await,
+        64 => open_n::<64>(cfg, dir, lazy, sem).await,
         33 => open_n::<33>(cfg, dir, lazy, sem).await,
         128 => open_n::<128>(cfg, dir, lazy, sem).await,
         100 => open_n::<100>(cfg, dir, lazy, sem).await,
